@@ -64,6 +64,12 @@ def idx(n, env, sides=None):
             return Aff({k: v * l.c for k, v in r.t.items()}, r.c * l.c)
         if not r.t:
             return Aff({k: v * r.c for k, v in l.t.items()}, l.c * r.c)
+    if isinstance(n, ast.BinOp) and isinstance(n.op, (ast.FloorDiv, ast.Div, ast.Mod, ast.LShift, ast.RShift)):
+        l, r = idx(n.left, env, sides), idx(n.right, env, sides)
+        if not l.t and not r.t and r.c != 0:
+            v_ = {ast.FloorDiv: lambda a, b: a // b, ast.Div: lambda a, b: a / b, ast.Mod: lambda a, b: a % b, ast.LShift: lambda a, b: a << b, ast.RShift: lambda a, b: a >> b}[type(n.op)](l.c, r.c)
+            if v_ == int(v_):
+                return Aff(c=int(v_))
     if isinstance(n, ast.Attribute) and U(n) in ("self.code_pkg.size", "self.code_pkg.max_size", "self.instruction.mode.rel_sz"):
         return env.get(U(n), Aff({U(n): 1}))
     raise NotAffine(U(n))
@@ -237,6 +243,25 @@ def rel1(ctx, c):
             c.finding(site + ":identity", "the distance is read from %s, a table kept on the class" % cached[0].split("[")[0],
                       "fix_addresses takes the branch distance from `%s`, state stored on the class and reused between calls (and between programs): it is right only while the "
                       "table still describes this statement list - lists that merely compare equal, or a list edited in place, get the distances of another layout" % cached[0], w)
+        elif not free and diff.t and set(diff.t) == {"A[%r]" % (Aff({"this": 1}, 1),), "A[%r]" % (Aff({"this": 1}),)} \
+                and diff.t["A[%r]" % (Aff({"this": 1}, 1),)] == -diff.t["A[%r]" % (Aff({"this": 1}),)]:
+            # the branch's own length entered as a constant instead of its size: A[this+1] - A[this] is the size of this statement, known per row of the table
+            k_own = diff.t["A[%r]" % (Aff({"this": 1}, 1),)]
+            eff_rows, _ = ctx.effective_rows()
+            wrong = []
+            for m_, r_ in sorted(eff_rows.items(), key=lambda kv: str(kv[0])):
+                if r_.flags["is_pseudo"] or r_.modes["rel"][0] is None or not isinstance(r_.modes["rel"][1], int):
+                    continue
+                if short is not None and short != bool(r_.flags["is_short_branch"]):
+                    continue
+                if (diff.c + k_own * r_.modes["rel"][1]) % mod != 0:
+                    wrong.append((m_, r_.modes["rel"][1], diff.c + k_own * r_.modes["rel"][1]))
+            if wrong:
+                c.finding(site + ":identity", "the branch's own length is a constant that is wrong for %s" % ", ".join(w_[0] for w_ in wrong[:4]),
+                          "fix_addresses emits %r for a %s %s branch, i.e. it counts the branch instruction itself as a fixed number of bytes: for %s (%d bytes long) the displacement is off by %d"
+                          % (val, "short" if short else "long", direction, wrong[0][0], wrong[0][1], wrong[0][2]), w)
+            else:
+                c.ok(site + ":identity", "emitted = A[target] - A[this+1] for the length of every branch row", w)
         elif free:
             c.undecided(site + ":identity", "the emitted value depends on %s, which the evaluation could not express through statement addresses" % ", ".join(sorted(free)), repr(diff)[:100], w)
         else:
